@@ -566,6 +566,16 @@ struct WithBoth : WithJac
 {
   Eigen::Matrix<double, 5, 3> hessian(const Vector3d & x, const SO3d &) const { return Eigen::Matrix<double, 5, 3>::Constant(-k + x(1)); }
 };
+// the same members without const qualification (e.g. a callable that caches its last result): a non-const callable object
+// must be dispatched to them as well
+struct WithBothMut
+{
+  double k;
+  int calls = 0;
+  double operator()(const Vector3d & x, const SO3d &) const { return k * x.sum(); }
+  Eigen::Matrix<double, 2, 7> jacobian(const Vector3d & x, const SO3d &) { ++calls; return Eigen::Matrix<double, 2, 7>::Constant(k + x(0)); }
+  Eigen::Matrix<double, 5, 3> hessian(const Vector3d & x, const SO3d &) { ++calls; return Eigen::Matrix<double, 5, 3>::Constant(-k + x(1)); }
+};
 struct Plain
 {
   double k;
@@ -615,6 +625,21 @@ void dispatch(hv::Rng & rng)
   {
     auto [v, J, H] = smooth::diff::dr<2, DT::Default>(fb, smooth::wrt(x, g));
     if (!(v == fb(x0, g0)) || !same_bits(J, Jw) || !same_bits(H, Hw) || !untouched()) bad("default K=2 with both not verbatim");
+  }
+  {  // non-const analytic members on a non-const callable: Default must still hand them back verbatim
+    WithBothMut fm{k};
+    {
+      auto [v, J] = smooth::diff::dr<1, DT::Default>(fm, smooth::wrt(x, g));
+      if (!(v == fm(x0, g0)) || !same_bits(J, Jw) || !untouched() || fm.calls == 0) bad("default K=1 with non-const jacobian() not verbatim");
+    }
+    {
+      auto [v, J, H] = smooth::diff::dr<2, DT::Default>(fm, smooth::wrt(x, g));
+      if (!(v == fm(x0, g0)) || !same_bits(J, Jw) || !same_bits(H, Hw) || !untouched()) bad("default K=2 with non-const members not verbatim");
+    }
+    {
+      auto [v, J, H] = smooth::diff::dr<2, DT::Analytic>(fm, smooth::wrt(x, g));
+      if (!(v == fm(x0, g0)) || !same_bits(J, Jw) || !same_bits(H, Hw) || !untouched()) bad("analytic K=2 with non-const members not verbatim");
+    }
   }
   {  // jacobian() only, K=2: numerical for both outputs (diffable_order2 fails)
     auto [v, J, H]    = smooth::diff::dr<2, DT::Default>(fj, smooth::wrt(x, g));
